@@ -52,6 +52,10 @@ pub fn durations() -> Vec<time::Duration> {
             v.push(time::Duration::new(s, n));
         }
     }
+    // the extremes of the type itself (reachable by decoding: seconds = i64::MIN with negative nanos)
+    v.push(time::Duration::MIN);
+    v.push(time::Duration::MAX);
+    v.push(time::Duration::seconds(i64::MIN) + time::Duration::nanoseconds(-1));
     v
 }
 
